@@ -97,24 +97,49 @@ func (s *spec) tryS(l, g int) bool {
 	}
 	return false
 }
+func (s *spec) restore(locks []int, prev []int, g int) {
+	for i, l := range locks {
+		if s.h[l][g] == prev[i] {
+			continue
+		}
+		switch prev[i] {
+		case 0:
+			s.h[l][g] = 0
+		case 1:
+			s.tryS(l, g)
+		case 2:
+			s.tryX(l, g)
+		}
+	}
+}
 func (s *spec) apply(o op) int {
 	g := o.Owner
 	switch o.Kind {
 	case "trylocks":
-		for _, l := range o.Locks {
+		// a request over several locks is granted or refused as a whole: a refusal puts the locks taken so far back
+		var prev []int
+		for i, l := range o.Locks {
 			if l == iCkpt && s.mstate(iWrite) != 0 && s.h[iWrite][g] != 2 {
+				s.restore(o.Locks[:i], prev, g)
 				return 0
 			}
+			p := s.h[l][g]
 			if !s.tryX(l, g) {
+				s.restore(o.Locks[:i], prev, g)
 				return 0
 			}
+			prev = append(prev, p)
 		}
 		return 1
 	case "tryrlocks":
-		for _, l := range o.Locks {
+		var prev []int
+		for i, l := range o.Locks {
+			p := s.h[l][g]
 			if !s.tryS(l, g) {
+				s.restore(o.Locks[:i], prev, g)
 				return 0
 			}
+			prev = append(prev, p)
 		}
 		return 1
 	case "unlock":
@@ -487,6 +512,9 @@ func Run(c *common.Ctx) error {
 	}
 	_ = lfs.ChecksumFlag
 	if err := recreatedAfterDrop(c, c.Rng.Fork()); err != nil {
+		return err
+	}
+	if err := haltReleaseUnderReader(c, c.Rng.Fork()); err != nil {
 		return err
 	}
 	for _, wal := range []bool{false, true} {
